@@ -1,4 +1,7 @@
 """C12 — no expired entry is ever served (TTL, per-item TTL, TTI, stale window)."""
-from props import cachelib
+from props import cachelib, cacheconc
 def run(ctx):
     cachelib.run(ctx, "C12", [("ttl", 6), ("register", 1), ("iter", 1)], 3600, 60000)
+    # concurrent layer: expiry under interleavings (critical-section model with a virtual clock) + baton-scheduled tie
+    cacheconc.obligations(ctx, "C12")
+    cacheconc.tie(ctx)
